@@ -6,7 +6,7 @@ PID = "C03"
 
 def configs(ctx):
     q = ctx.quick
-    full = F.NONDAMAGE
+    full = F.NONDAMAGE + F.SPEDITS
     return [
         F.Config("full-1p", full, 4 if q else 5, "int", limit=5000 if q else 150000, docvals=("d1", "d2"),
                  invariants=("HashInvX", "CheckPassesX"), properties=("Lazy", "NoClobber"), strict=(("invariants", "CheckPasses"), ("invariants", "HashInv"))),
@@ -35,7 +35,7 @@ def run(ctx):
                        "distinct = (configuration, operation, outcome) classes of edges / simulated behaviours by (length, last op)")
     for c in configs(ctx):
         F.run_config(ctx, PID, c)
-    F.run_recorded(ctx, PID, "random-wide", 60 if ctx.quick else 3000, 40 if ctx.quick else 60, F.NONDAMAGE + ["move", "clone", "stray"])
+    F.run_recorded(ctx, PID, "random-wide", 60 if ctx.quick else 3000, 40 if ctx.quick else 60, F.NONDAMAGE + F.SPEDITS + ["move", "clone", "stray"])
     ctx.cov["binding_selftest"] = F.selftest(ctx, PID)
 
 
